@@ -124,6 +124,10 @@ class LenaSequence(object):
             if hasattr(el, "_get_context"):
                 # every element that has _get_context
                 # must also have _set_context
+                transparent = getattr(el, "_is_context_transparent", None)
+                if transparent is not None and transparent():
+                    # a Split without static context keeps the context
+                    continue
                 try:
                     context = el._get_context()
                 except LenaKeyError as exc:
